@@ -499,7 +499,8 @@ func (r *runner) newFixture(fam int) *fixture {
 		fx.sinks = append(fx.sinks, s)
 		oc, logs := observer.New(al)
 		fx.logs = logs
-		fx.core = pre(zapcore.NewTee(zapcore.NewCore(zapcore.NewJSONEncoder(encCfg), s, al), oc))
+		// no pre-derived context here: the observer branch starts with an empty context
+		fx.core = zapcore.NewTee(zapcore.NewCore(zapcore.NewJSONEncoder(encCfg), s, al), oc)
 		fx.evalDemand = false
 	case famTeeJJ:
 		// every branch evaluates a marshaler for itself: no count is demanded
@@ -718,6 +719,9 @@ func (r *runner) exec(c caseDesc) (fail *failure) {
 				n.sugared = !p.sugared
 			}
 			// the real call
+			if rec != nil {
+				rec.restore()
+			}
 			r.derives++
 			switch st.sym.op {
 			case opWith:
@@ -758,6 +762,13 @@ func (r *runner) exec(c caseDesc) (fail *failure) {
 					sliceReported = true
 					r.soft = append(r.soft, &failure{key: famName + ":caller-slice-modified:" + curOp, what: fmt.Sprintf("[%s] %s | schedule %s | derive n%d (%s) changed the argument slice it was handed: %s", famName, c.progString(), c.variant, i, curOp, d)})
 				}
+				// the caller re-uses its scratch slice after an eager derivation has returned (WithLazy's
+				// contract is to keep the fields for later: a slice a lazy logger holds is left alone)
+				if st.sym.op == opWithLazy {
+					rec.lazyHeld = true
+				} else if !rec.lazyHeld {
+					rec.poison()
+				}
 			}
 			continue
 		}
@@ -784,7 +795,9 @@ func (r *runner) exec(c caseDesc) (fail *failure) {
 		} else {
 			n.plain.Info(msg, csRec.fields()...)
 		}
-		if d := csRec.changed(); d != "" {
+		if d := csRec.changed(); d == "" {
+			csRec.poison() // the caller re-uses the call-site slice as well
+		} else {
 			return &failure{key: famName + ":caller-slice-modified:" + curOp, what: fmt.Sprintf("log%d on n%d changed the call-site argument slice: %s", e.round, e.node, d)}
 		}
 		all := append(r.all[:0], fx.rootFields...)
@@ -961,9 +974,38 @@ func (r *runner) verify(fx *fixture, e event, n mnode, name, msg string, all []f
 // typed rendering of specs, created on first need and then reused as the very
 // same object by the Again* steps.
 type argRec struct {
-	specs []fspec
-	f     []zap.Field
-	s     []interface{}
+	specs    []fspec
+	f        []zap.Field
+	s        []interface{}
+	poisoned bool // the caller has overwritten the slices after the call returned
+	lazyHeld bool // handed to a WithLazy step: never overwritten
+}
+
+var poisonField = zap.String("POISON", "caller reused its slice")
+
+// poison overwrites every element in place, as a caller re-using its scratch slice would.
+func (a *argRec) poison() {
+	for k := range a.f {
+		a.f[k] = poisonField
+	}
+	for k := range a.s {
+		a.s[k] = "POISON"
+	}
+	a.poisoned = true
+}
+
+// restore puts the original contents back into the same slice objects (before they are handed out again).
+func (a *argRec) restore() {
+	if !a.poisoned {
+		return
+	}
+	for k := range a.f {
+		a.f[k] = a.specs[k].field()
+	}
+	if a.s != nil {
+		copy(a.s, toSugar(a.specs))
+	}
+	a.poisoned = false
 }
 
 func (a *argRec) fields() []zap.Field {
@@ -984,6 +1026,20 @@ func (a *argRec) sugar() []interface{} {
 // Integer, String and Interface identity of every Field; every element of the
 // loosely typed slice; the spare capacity must still be zero).
 func (a *argRec) changed() string {
+	if a.poisoned {
+		// compare with what the caller last put there
+		for k := range a.f {
+			if a.f[k] != poisonField {
+				return fmt.Sprintf("[]Field element %d (overwritten by the caller after the call) is now %s", k, fieldString(a.f[k]))
+			}
+		}
+		for k := range a.s {
+			if a.s[k] != "POISON" {
+				return fmt.Sprintf("[]interface{} element %d (overwritten by the caller after the call) changed", k)
+			}
+		}
+		return ""
+	}
 	if a.f != nil {
 		if len(a.f) != len(a.specs) {
 			return "length changed"
@@ -1269,6 +1325,11 @@ func lastKey(item string) string {
 
 // classify names the kind of difference between two flattened contexts.
 func classify(got, want []string, all []fspec) string {
+	for _, g := range got {
+		if strings.Contains(g, "POISON") {
+			return "caller-slice-aliased"
+		}
+	}
 	wantKeys := map[string]int{}
 	for _, w := range want {
 		wantKeys[lastKey(w)]++
